@@ -198,6 +198,9 @@ fn gen_program(r: &mut Rng) -> Value {
         return json!({"prog": prog::block_to_json(&[St::Raw(text)]), "plant": what});
     }
     let mut g = prog::Gen::new(r.fork());
+    // sessions and the real binary have neither a simulated host nor a simulated stdin
+    g.use_run = false;
+    g.use_stdin = false;
     let mut p = g.program();
     let mut what = "plain";
     if r.chance(45) {
